@@ -60,6 +60,9 @@ CHECKS["C10"] = dict(text="_get_bbox_nd on symbolic images with symbolic padding
 CHECKS["C11"] = dict(text="Two runs per path with prediction and reference exchanged: the whole pipeline on symbolic label maps (tp equal, fp/fn exchanged, IoU/Dice multisets equal, RVD mirrored to -r/(1+r)), the per-instance crop + kernels on longer 1-D maps, and the real threshold matcher on a symbolic contingency pattern vs. its transpose with free real scores (assignment transposed when no competing candidates tie).",
              note="ASSD symmetry is decided at kernel level in C07; size bounds; ties excluded",
              ref="DESIGN.md section 4 / C11")
+CHECKS["C17"] = dict(text="The real Panoptica_Aggregator constructor / evaluate / _save_one_subject and its file helpers run over an in-memory file model while the solver chooses the initial state of the output file, the crash point (the session is killed before any one of its lock / file / helper operations, no atexit), the resubmission order, one subject name as a bounded symbolic string, and - for sibling aggregators in one directory - the order of all constructor / evaluate calls; after restart and resubmission the file must hold the header exactly once and exactly one complete row per subject.",
+             note="crash granularity = aggregator-level operations (torn writes inside one row write are outside the claim); sequential sessions (concurrency is C16); every counterexample / witness is replayed on the real package with child processes killed by os._exit at the same operation index",
+             ref="DESIGN.md sections 3.2, 4 / C17")
 NA = {}
 m = {"version": 1, "setup_cmd": "./bootstrap.sh",
      "hooks": {"guard": "PANOPTICA_VERIF", "enable": "no hooks in /repo: checks re-import /repo/panoptica from the working tree into a private twin with model modules substituted at import time (pv/twin.py)",
